@@ -106,6 +106,15 @@ func (g *Graph) AddEdge(v1, v2 Vertex) {
 func (g *Graph) AddEdgeWeighted(v1, v2 Vertex, weight int) {
 	g.init()
 	h1, h2 := hashcode(v1), hashcode(v2)
+
+	// Both vertices must be in the graph, otherwise we do nothing.
+	if _, ok := g.hash[h1]; !ok {
+		return
+	}
+	if _, ok := g.hash[h2]; !ok {
+		return
+	}
+
 	g.adjacencyOut[h1][h2] = weight
 	g.adjacencyIn[h2][h1] = weight
 }
@@ -149,6 +158,10 @@ func (g *Graph) InEdges(v Vertex) []Vertex {
 // this graph will impact the original Graph. You must call Copy on the
 // result if you want to have a copy.
 func (g *Graph) Reverse() *Graph {
+	// Initialize first: a reversed view of a graph that has never been
+	// written to must still share its (future) state.
+	g.init()
+
 	return &Graph{
 		adjacencyOut: g.adjacencyIn,
 		adjacencyIn:  g.adjacencyOut,
